@@ -84,12 +84,12 @@ func runSharedElems(p *Program, r *RuleResult) {
 	}
 	nRecords := 0
 	// the senders, and the snapshot helpers they build the record with (first-party callees,
-	// up to two calls deep, that return a process record)
+	// up to two calls deep, that return a process record or a whole update)
 	builders := map[*ssa.Function]bool{}
 	returnsProcess := func(fn *ssa.Function) bool {
 		res := fn.Signature.Results()
 		for i := 0; i < res.Len(); i++ {
-			if isNamed(res.At(i).Type(), processPkg, "Process") {
+			if isNamed(res.At(i).Type(), processPkg, "Process") || isNamed(res.At(i).Type(), processPkg, "MonitorUpdate") {
 				return true
 			}
 			if pt, ok := res.At(i).Type().Underlying().(*types.Pointer); ok && isNamed(pt.Elem(), processPkg, "Process") {
